@@ -6,6 +6,7 @@ import (
 	"path/filepath"
 
 	kv "github.com/XiXi-2024/xixi-kv"
+	"github.com/XiXi-2024/xixi-kv/vhook"
 	"verif/harness/core"
 	"verif/harness/mon"
 	"verif/harness/vfmt"
@@ -19,7 +20,7 @@ func init() { core.Register(c17{}) }
 func (c17) ID() string    { return "C17" }
 func (c17) Level() string { return "exploration" }
 func (c17) Rule() string {
-	return "cases = generated histories (overwrite/delete/batch mixes, batches overflowing the limit, put+delete of one key inside a batch, deletes of absent keys, oversized single records, merges + adopting restarts, several restarts; DataFileMergeRatio 0) ; after EVERY step Stat() is compared with values recomputed independently: KeyNum vs model size, DataFileNum vs number of *.data files, 0 <= ReclaimableSize <= DiskSize, DiskSize-ReclaimableSize vs the bytes (chunk headers + payload) of the live record of every live key obtained by decoding all data files with vfmt and applying the recovery rules (latest record wins, tombstones delete, batch records count only with their sealing record); every data file whose logical size exceeds DataFileSize must hold exactly one record (plus a batch sealing record); Merge must never be refused with ErrNoEnoughSpaceForMerge/ErrMergeRatioUnreached. Non-trivial: history with >=1 batch, >=1 restart, >=1 merge and >=50 Stat comparisons; distinct = hash of (config, op list)"
+	return "cases = generated histories (overwrite/delete/batch mixes, batches overflowing the limit, put+delete of one key inside a batch, deletes of absent keys, oversized single records, merges + adopting restarts, several restarts; DataFileMergeRatio 0) ; after EVERY step Stat() is compared with values recomputed independently: KeyNum vs model size, DataFileNum vs number of *.data files, 0 <= ReclaimableSize <= DiskSize, DiskSize-ReclaimableSize vs the bytes (chunk headers + payload) of the live record of every live key obtained by decoding all data files with vfmt and applying the recovery rules (latest record wins, tombstones delete, batch records count only with their sealing record); every data file whose logical size exceeds DataFileSize must hold exactly one record (plus a batch sealing record); Merge must never be refused with ErrNoEnoughSpaceForMerge/ErrMergeRatioUnreached; every fourth case additionally restarts from a process-death image taken inside a large batch (records without their sealing record on disk) and compares the recovered counters the same way. Non-trivial: history with >=1 batch, >=1 restart, >=1 merge and >=50 Stat comparisons; distinct = hash of (config, op list)"
 }
 func (c17) Assumptions() []string {
 	return []string{"vfmt decodes the files independently of the engine's reader (cross-validated by C11)", "for open mmap files the logical size is taken from the hooked write events (the physical file is pre-extended)"}
@@ -211,6 +212,55 @@ func (c17) Run(c core.Case, w *core.Worker) core.Result {
 			if r.Chance(1, 2) && !s.Dead {
 				s.Exec(core.Op{Kind: "restart"})
 			}
+		}
+	}
+	if c.Index%4 == 2 && !s.Dead && !violated {
+		// restart after a process death inside a large batch: the image keeps batch records
+		// without their sealing record; the recovered counters must still be exact
+		img := w.Dir("img")
+		k := r.Range(1, 3)
+		n := 0
+		taken := false
+		prev := io.OnEvent
+		io.OnEvent = func(ev mon.Event, buf []byte) {
+			if ev.Kind == "io.writeDone" && !taken {
+				n++
+				if n == k {
+					taken = mon.CopyTree(dir, img) == nil
+				}
+			}
+		}
+		s.Exec(bigBatch(r, g, sc.Cfg.DataFileSize))
+		io.OnEvent = prev
+		if taken && !s.Dead {
+			old := vhook.Set(nil)
+			func() {
+				defer vhook.Set(old)
+				idb, err := kv.Open(sc.Cfg.Options(img))
+				if err != nil {
+					fail("crash-open", "image taken inside a batch does not open: "+err.Error())
+					return
+				}
+				st := idb.Stat()
+				if err := idb.Close(); err != nil {
+					fail("crash-close", err.Error())
+					return
+				}
+				live, _, fsize, serr := scanDir(img, nil)
+				if serr != nil {
+					fail("scan", "scan of the recovered image failed: "+serr.Error())
+					return
+				}
+				var liveBytes int64
+				for _, l := range live {
+					liveBytes += int64(l.size)
+				}
+				res.Add("stat_after_crash_recovery", 1)
+				if st.KeyNum != len(live) || st.DataFileNum != len(fsize) || st.ReclaimableSize < 0 || st.ReclaimableSize > st.DiskSize || st.DiskSize-st.ReclaimableSize != liveBytes {
+					fail("crash-accounting", fmt.Sprintf("after recovery from a process death inside a batch: KeyNum=%d (scan %d) DataFileNum=%d (dir %d) DiskSize(%d)-ReclaimableSize(%d)=%d, live records occupy %d bytes",
+						st.KeyNum, len(live), st.DataFileNum, len(fsize), st.DiskSize, st.ReclaimableSize, st.DiskSize-st.ReclaimableSize, liveBytes))
+				}
+			}()
 		}
 	}
 	if !s.Dead && !violated {
